@@ -52,7 +52,8 @@ type worldSpec struct {
 	stub     []string
 	rule     string
 	assume   []string
-	enum     bool   // the world enumerates part of its space exhaustively
+	probes   map[string][]string // property -> rare-condition probes that are expected to be hit
+	enum     bool                // the world enumerates part of its space exhaustively
 	level    string // evidence level (default exploration)
 }
 
@@ -75,6 +76,8 @@ func init() {
 		rule: "one case = one simulated run: a script of 0..8 Write/WriteString calls of sizes 0..64KiB over a fault-injecting wrapped writer, then Close, against 1..2 consumers of four temperaments, under a seeded schedule; non-trivial = at least one context switch where the running task could have continued, forced pre-emption or fired fault; distinct = distinct hash of the full event history",
 		assume: []string{"simulated channel semantics conform to the Go specification (simrt conformance suite)", "sampling, not proof: <=8 operations, <=2 consumers per run"},
 	}
+	worlds["laneworld"].probes = map[string][]string{"*": {"select.multi_ready", "push_timeout_fired", "push_ctx_error", "cancel_while_push_in_flight", "cancel_with_tasks_pending", "hol_state_with_pinned_workers", "pending_exact_nonzero", "concurrent_recover_2plus", "headcount_checked", "clock.jump", "ctx.cancel_midrun", "ctx.deadline_fired", "ctx.cancel_before_gates"}}
+	worlds["progressworld"].probes = map[string][]string{"*": {"consumer_absent_until_close", "consumer_late", "consumer_slow", "stringwriter_path", "write.short", "write.error_partial", "write.error_zero"}}
 	propWorld["C19"] = "progressworld"
 	worlds["filterworld"] = &worldSpec{
 		name: "filterworld", pkgs: []string{"util/netutil"}, quick: 4000, thorough: 60000,
@@ -104,11 +107,19 @@ func init() {
 		rule: "cases = (a) every scenario of {CopyFile, MoveFile} x 7 source sizes (0..1 MiB) x {regular, missing, via symlink} x 14 destination layouts (missing, shorter, longer, same path, ./ and dir/../ spellings, symlink to source, hard link of source, directory, parent missing, parent is a file, other mount missing/existing, dangling symlink), fault-free; (b) for each scenario every single-fault placement: each call of its recorded trace x each errno applicable to that primitive (writes additionally x {0, half, all-but-one} bytes written before the error) - (a) and (b) are enumerated completely; (c) seeded plans of up to three faults over random scenarios. distinct = distinct hash of (scenario, call trace with faults, result); every case is non-trivial (it runs the operation)",
 		assume: []string{"the simulated file system is faithful where the property looks: every fault-free scenario is also executed by the unrewritten package on the real file system (second mount: /dev/shm) and must agree in error class and resulting contents", "errors surfacing only at Close and power loss are outside the property's fault list"},
 	}
+	worlds["fsworld"].probes = map[string][]string{"*": {"traces_validated_against_real_fs", "fs.rename:EXDEV", "fs.write:ENOSPC", "fs.read:EIO", "fs.unlink:EPERM", "fs.truncate:EIO"}}
 	propWorld["C18"] = "fsworld"
+	worlds["httpworld"].probes = map[string][]string{
+		"C05": {"route_with_more_params_added_after_store_pooled", "pool.miss_with_items", "pool.stale_pick"},
+		"C15": {"panic_before_writing", "panic_after_status", "panic_after_partial_body", "client.write_error", "pool.stale_pick"}}
 	propWorld["C05"] = "httpworld"
 	propWorld["C15"] = "httpworld"
+	worlds["logworld"].probes = map[string][]string{"*": {"line_over_pool_limit", "siblings_of_derived_parent", "inline_group", "below_threshold", "slow_write", "folded_compared", "pool.miss_with_items", "pool.stale_pick", "sink.short_write", "sink.write_error"}}
 	propWorld["C02"] = "logworld"
 	propWorld["C03"] = "logworld"
+	worlds["filterworld"].probes = map[string][]string{
+		"C11": {"removed_slot_before_switch", "crossed_switch_during_run", "remove_after_migration"},
+		"C12": {"crossed_switch_while_readers_run", "matchall_toggled", "lookup_overlaps_writers", "lookup_with_either_answer_legal", "removed_slot_before_switch"}}
 	propWorld["C11"] = "filterworld"
 	propWorld["C12"] = "filterworld"
 }
@@ -562,9 +573,11 @@ func check(prop string, ws *worldSpec, tier string, seed uint64, runsOverride, w
 	}
 
 	wall := time.Since(start).Seconds()
-	var gaps []string
-	for _, k := range kit.SortedKeys(tot.Probes) {
-		_ = k
+	gaps := []string{}
+	for _, k := range append(append([]string{}, ws.probes["*"]...), ws.probes[prop]...) {
+		if tot.Probes[k] == 0 && tot.Faults[k] == 0 {
+			gaps = append(gaps, k)
+		}
 	}
 	ev := map[string]any{
 		"property_id": prop,
